@@ -192,7 +192,16 @@ class Stream(ModelMixin["Stream"], Base):
         assert upload_folder.exists()
         abs_filename = upload_folder / filename
         logging.debug('destination file "%s"', abs_filename)
+        # media file names and blob file names are unique across all streams.
+        # Only a file of this stream is replaced by an upload of the same name.
         mf = MediaFile.get(name=filename.stem)
+        if mf is not None and mf.stream_pk != self.pk:
+            raise ValueError(
+                f'File name "{filename.stem}" is already used by stream {mf.stream.directory}')
+        blob = Blob.get_one(filename=filename.name)
+        if blob is not None and blob.mediafile is not None and blob.mediafile != mf:
+            raise ValueError(
+                f'File name "{filename.name}" is already used by media file {blob.mediafile.name}')
         if mf:
             mf.delete_file()
             mf.delete()
